@@ -15,6 +15,8 @@ from .. import vlib
 from ..vlib import f2bits, bits2f
 
 LEAN_TARGETS = ["SkaModel.Props.C19"]
+# theorems about, and the executable of, the training-record block translated from the current source of pool/utils.py on every run
+GEN_TARGETS = ["SkaModel.Props.WrapperGen", "skawrapgendriver"]
 LEVEL = "proof"
 RULE = (
     "case = one IndexClassifierWrapper (constructor flags ignore_partial_fit x enforce_unique_samples x use_speed_up, "
@@ -1110,6 +1112,99 @@ def probes(ctx, pending):
         run_case(ctx, c, pending)
 
 
+def generate(ctx):
+    from ..translate import pywrapper
+
+    pywrapper.generate(ctx)
+
+
+def gen_merge_correspond(ctx, n_cases):
+    """The block translated from the current source (`Gen/WrapperGen.lean`: cur_idx / new_idx / new_y / new_sample_weight of
+    the emulated partial_fit) executed against the real `partial_fit`: a recording classifier without native partial_fit is
+    fitted, optionally updated once, then updated from the current or the base record; the record the real object holds
+    afterwards (or the exception) must be the translated block's result on the record it held before."""
+    import os
+
+    from skactiveml.pool.utils import IndexClassifierWrapper
+
+    if not (getattr(ctx, "gen_ok", False) and os.path.exists(vlib.WRAPGENDRIVER)):
+        return
+    rng = ctx.rng
+    lines, expect = [], []
+
+    def lst(xs):
+        return f"{len(xs)} " + " ".join(str(int(x)) for x in xs) if len(xs) else "0"
+
+    def opt(xs):
+        return "0" if xs is None else "1 " + lst(xs)
+
+    for _ in range(n_cases):
+        n = rng.randint(3, 9)
+        unique = rng.random() < 0.6
+        weighted0 = rng.random() < 0.5
+        X = np.arange(2 * n, dtype=float).reshape(n, 2)
+        y_full = np.array([float(rng.randrange(3)) for _ in range(n)])
+        sw_full = np.array([float(rng.randint(1, 4)) for _ in range(n)]) if weighted0 else None
+        clf = make_clf("spy")
+        w = IndexClassifierWrapper(clf, X, y_full, sample_weight=sw_full, set_base_clf=False, ignore_partial_fit=True,
+                                   enforce_unique_samples=unique, use_speed_up=False, missing_label=NAN)
+        k0 = rng.randint(1, n - 1)
+        idx0 = rng.sample(range(n), k0) if unique else [rng.randrange(n) for _ in range(k0)]
+        use_base = rng.random() < 0.4
+        try:
+            with warnings.catch_warnings():
+                warnings.simplefilter("ignore")
+                w.fit(idx0, set_base_clf=use_base)
+                if rng.random() < 0.5:
+                    k1 = rng.randint(1, 2)
+                    i1 = rng.sample(range(n), k1)
+                    w.partial_fit(i1, y=[float(rng.randrange(3)) for _ in i1],
+                                  sample_weight=[float(rng.randint(1, 4)) for _ in i1] if weighted0 else None)
+        except Exception as e:  # noqa: BLE001
+            ctx.count("generated_model_setup_raised")
+            continue
+        pre = ("base_" if use_base else "")
+        idx_ = list(getattr(w, pre + "idx_"))
+        y_ = list(getattr(w, pre + "y_"))
+        sw_ = getattr(w, pre + "sample_weight_")
+        sw_ = None if sw_ is None else list(sw_)
+        ka = rng.randint(1, 3)
+        add_idx = rng.sample(range(n), ka) if (unique or rng.random() < 0.5) else [rng.randrange(n) for _ in range(ka)]
+        # re-add a known sample more often than chance would
+        if rng.random() < 0.5:
+            add_idx[0] = int(rng.choice(idx_))
+            if unique and len(set(add_idx)) < len(add_idx):
+                add_idx = list(dict.fromkeys(add_idx))
+        add_y = [float(rng.randrange(3)) for _ in add_idx]
+        r = rng.random()
+        add_sw = ([float(rng.randint(1, 4)) for _ in add_idx] if (sw_ is not None) == (r < 0.85) else None)
+        try:
+            with warnings.catch_warnings():
+                warnings.simplefilter("ignore")
+                w.partial_fit(add_idx, y=add_y, sample_weight=add_sw, use_base_clf=use_base)
+            swn = w.sample_weight_
+            def tv(v):
+                return str(int(v)) if v == v else "nan"
+
+            impl = "ok " + " ".join(tv(v) for v in w.idx_) + " | " + " ".join(tv(v) for v in w.y_) + " | " + \
+                   ("none" if swn is None else " ".join(tv(v) for v in swn))
+        except Exception as e:  # noqa: BLE001
+            impl = err_enum(e)
+        ctx.count("generated_model_cases")
+        ctx.count("generated_model_" + impl.split()[0] + ("_" + impl.split()[1] if impl.startswith("err") else ""))
+        if set(add_idx) & set(idx_):
+            ctx.count("generated_model_readded_sample")
+        # what the block receives: `sample_weight=None` is resolved from the constructor's weights before it
+        blk_sw = add_sw if (add_sw is not None or sw_full is None) else [float(sw_full[i]) for i in add_idx]
+        lines.append(f"g_iw_merge {int(unique)} {lst(idx_)} {lst(y_)} {opt(sw_)} {lst(add_idx)} {lst(add_y)} {opt(blk_sw)}")
+        expect.append((impl, dict(unique=unique, idx_=idx_, y_=y_, sw_=sw_, add_idx=add_idx, add_y=add_y, add_sw=add_sw, use_base=use_base)))
+    outs = vlib.run_driver(lines, exe=vlib.WRAPGENDRIVER)
+    for line, out, (impl, case) in zip(lines, outs, expect):
+        if out.split() != impl.split():
+            ctx.disagree("SkaModel.Gen.WrapperGen (translated from the current source) vs IndexClassifierWrapper.partial_fit",
+                         dict(case, line=line), out, impl)
+
+
 def correspond(ctx):
     rng = ctx.rng
     pending = []
@@ -1132,6 +1227,7 @@ def correspond(ctx):
     if ctx.thorough:
         exhaustive(ctx, pending, flush)
         flush()
+    gen_merge_correspond(ctx, 400 if not ctx.thorough else 4000)
     c = classes_()
     ctx.notes["spy_fit_calls"] = c.get("n_fit", 0)
     ctx.notes["spy_partial_fit_calls"] = c.get("n_pfit", 0)
